@@ -106,7 +106,7 @@ func verifyFunc(P *Prog, fn *ssa.Function, fc *FuncContract) (rep *FnReport) {
 	if fc != nil {
 		fx.nolockset = fc.NoLockset != ""
 		env := fx.frameEnv(st, fr)
-		for _, c := range fc.Requires {
+		for _, c := range append(append([]Clause{}, fc.Captures...), fc.Requires...) {
 			v, err := env.safeEval(c.Expr)
 			if err != nil {
 				panic(fmt.Sprintf("%s:%d: %v", c.File, c.Line, err))
@@ -215,7 +215,13 @@ func (fx *FnExec) finish(st *State, fr *frame, results []Term) {
 }
 
 func (fx *FnExec) frameObligations(st *State, fr *frame, env *evalEnv, retName string) {
-	fc := fx.fc
+	fx.frameCheck(st, fr, env, retName, fx.fc.Modifies, st.entryHeap, fx.entryAlloc, "frame")
+}
+
+// frameCheck: every heap variable changed since the snapshot `initHeap` agrees
+// with it on all objects that existed then (<= allocBound), except at the
+// locations named by `modifies` (evaluated in the snapshot state).
+func (fx *FnExec) frameCheck(st *State, fr *frame, env *evalEnv, retName string, modifies []Expr, initHeap map[string]Term, allocBound Term, kind string) {
 	// allowed modification points per heap variable (evaluated in the entry state)
 	type allow struct {
 		whole bool
@@ -223,6 +229,7 @@ func (fx *FnExec) frameObligations(st *State, fr *frame, env *evalEnv, retName s
 	}
 	allowed := map[string]*allow{}
 	pre := *env
+	pre.old = initHeap
 	pre.inOld = true
 	add := func(name string, whole bool, idx Term) {
 		a := allowed[name]
@@ -236,7 +243,7 @@ func (fx *FnExec) frameObligations(st *State, fr *frame, env *evalEnv, retName s
 			a.idx = append(a.idx, idx)
 		}
 	}
-	for _, m := range fc.Modifies {
+	for _, m := range modifies {
 		switch x := m.(type) {
 		case *EField:
 			b := pre.eval(x.X)
@@ -283,13 +290,17 @@ func (fx *FnExec) frameObligations(st *State, fr *frame, env *evalEnv, retName s
 				}
 			}
 		case *EIdent:
-			add("ghost."+x.Name, true, "")
+			if v, ok := pre.vars[x.Name]; ok && v.cell && v.lv != nil {
+				add(v.lv.heap, false, v.lv.idx)
+			} else {
+				add("ghost."+x.Name, true, "")
+			}
 		}
 	}
 	for _, name := range sortedTermKeys(st.heap) {
 		cur := st.heap[name]
 		srt := fx.heapSorts[name]
-		init := st.entryHeap[name]
+		init := initHeap[name]
 		if init == "" {
 			init = sanitize(name) + "@0"
 		}
@@ -305,13 +316,13 @@ func (fx *FnExec) frameObligations(st *State, fr *frame, env *evalEnv, retName s
 			continue
 		}
 		if !strings.HasPrefix(srt, "(Array ") {
-			fx.emit(st, fr, "frame", name+"@"+retName, "(= "+cur+" "+init+")", nil, "")
+			fx.emit(st, fr, kind, name+"@"+retName, "(= "+cur+" "+init+")", nil, "")
 			continue
 		}
 		isrt := arrayIndexSort(srt)
 		var conds []string
 		if isrt == "Int" {
-			conds = append(conds, "(<= q.f "+fx.entryAlloc+")")
+			conds = append(conds, "(<= q.f "+allocBound+")")
 		}
 		if a != nil {
 			for _, ix := range a.idx {
@@ -322,7 +333,7 @@ func (fx *FnExec) frameObligations(st *State, fr *frame, env *evalEnv, retName s
 		if len(conds) > 0 {
 			body = "(=> (and " + strings.Join(conds, " ") + ") " + body + ")"
 		}
-		fx.emit(st, fr, "frame", name+"@"+retName, "(forall ((q.f "+isrt+")) "+body+")", nil, "")
+		fx.emit(st, fr, kind, name+"@"+retName, "(forall ((q.f "+isrt+")) "+body+")", nil, "")
 	}
 }
 
